@@ -370,16 +370,26 @@ func Main(t *testing.T) {
 			}
 			cp.Violation = v
 			min := cp
-			if cp.History == nil {
+			if g := determiniseIfUngated(t, P, cp, v, outPath); g != nil {
+				min = g
+			} else if cp.History == nil {
 				min = Shrink(t, P, cp, v)
 				// A violation must replay in a fresh process. If the minimised plan does
 				// not, what was seen depends on what this worker had executed before: keep
 				// the plan as it was and record the worker's position, which replay re-runs.
 				if !reproducesFresh(min, outPath) {
-					cp.Violation = v
-					cp.History = &History{Seed: st.Seed, Tier: st.Tier, Worker: st.Worker, Workers: workers, Index: i}
-					v.Detail += " (seen only after the plans this worker had executed before; replay re-runs them)"
-					min = cp
+					// First suspect: goroutines of the code under test that ran outside the
+					// scheduler (reads and closes are scheduled in a share of the executions
+					// only). Put them under it and look for a schedule that shows the same
+					// violation; that plan replays.
+					if g := determinise(t, P, cp, v, outPath); g != nil {
+						min = g
+					} else {
+						cp.Violation = v
+						cp.History = &History{Seed: st.Seed, Tier: st.Tier, Worker: st.Worker, Workers: workers, Index: i}
+						v.Detail += " (seen only after the plans this worker had executed before; replay re-runs them)"
+						min = cp
+					}
 				}
 			}
 			if k := known.match(min); k != "" {
@@ -437,6 +447,66 @@ func slimPlan(p *Plan) *Plan {
 		c.World.Containers = c.World.Containers[:4]
 	}
 	return c
+}
+
+// determinise re-runs a plan whose violation did not replay with every read and close of
+// every variant under the scheduler, under a few scheduler seeds, and returns a minimised
+// plan that shows a violation of the same class and replays in a fresh process, or nil.
+func determinise(t *testing.T, P Property, cp *Plan, v *Violation, outPath string) *Plan {
+	class := v.Class()
+	for k := uint64(0); k < 12; k++ {
+		g := cp.Clone()
+		g.Violation, g.EventLog = nil, nil
+		if g.Tags == nil {
+			g.Tags = map[string]string{}
+		}
+		g.Tags["keep_gates"] = "1"
+		for vi := range g.Variants {
+			g.Variants[vi].GateReads = true
+			g.Variants[vi].SchedSeed = (cp.Run+1)*1000003 + k*7919 + uint64(vi)*104729 | 1
+		}
+		var nv *Violation
+		func() {
+			defer func() { _ = recover() }()
+			nv = P.Check(t, g, nil)
+		}()
+		if nv == nil || nv.Class() != class {
+			continue
+		}
+		nv.Detail += " (found without the reads under the scheduler, where it did not replay; shown here under a schedule that does)"
+		g.Violation = nv
+		if !reproducesFresh(g, outPath) {
+			// fully scheduled and still not replayable in a fresh process: not a matter of
+			// schedules (the caller looks at the worker's history next)
+			return nil
+		}
+		min := Shrink(t, P, g, nv)
+		if reproducesFresh(min, outPath) {
+			return min
+		}
+		return g
+	}
+	return nil
+}
+
+// determiniseIfUngated prefers, for a violation found while some reads ran outside the
+// scheduler, a plan in which all of them are under it (such a plan replays whatever
+// goroutines the code under test starts); nil if the plan was scheduled throughout, is a
+// history finding, or shows nothing under the scheduler.
+func determiniseIfUngated(t *testing.T, P Property, cp *Plan, v *Violation, outPath string) *Plan {
+	if cp.History != nil || cp.Harness == "parselog" || os.Getenv("VERIF_NOSHRINK") == "1" || os.Getenv("VERIF_RACE") == "1" {
+		return nil
+	}
+	ungated := len(cp.Variants) == 0
+	for _, vr := range cp.Variants {
+		if !vr.GateReads {
+			ungated = true
+		}
+	}
+	if !ungated {
+		return nil
+	}
+	return determinise(t, P, cp, v, outPath)
 }
 
 // reproducesFresh replays a failing plan in a fresh process and reports whether it fails there too.
